@@ -17,17 +17,79 @@ from vf import coq
 from vf.core import sh
 from props import c14 as base
 
+STRIP_KEY = "patchable-pre-entry-stripped"
+REGRESSION_VARIANTS = ("fentry-cet", "pfe-7,2", "pfe-5,2", "pfe-nopie")
 NAMES = ["alpha", "alpine", "beta", "bet", "gamma_", "delta1", "tiny", "leaf", "work", "_under", "zeta9"]
 VARIANTS = {
     "pfe": (["gcc", "-O1", "-fpatchable-function-entry=5", "-fcf-protection=none"], 5),
     "pfe-cet": (["gcc", "-O1", "-fpatchable-function-entry=5", "-fcf-protection=full"], 5),
     "clang": (["clang", "-O1", "-fpatchable-function-entry=5"], 5),
+    "pfe-7,2": (["gcc", "-O1", "-fpatchable-function-entry=7,2", "-fcf-protection=none"], 5),
+    "pfe-5,2": (["gcc", "-O1", "-fpatchable-function-entry=5,2", "-fcf-protection=none"], 5),
+    "pfe-cxx": (["g++", "-O1", "-fpatchable-function-entry=5", "-fcf-protection=none"], 5),
+    "pfe-nopie": (["gcc", "-O1", "-fpatchable-function-entry=5", "-fno-pie", "-no-pie", "-fcf-protection=none"], 5),
     "fentry": (["gcc", "-O1", "-pg", "-mfentry", "-mnop-mcount", "-fno-pie", "-no-pie", "-fcf-protection=none"], 3),
     "fentry-cet": (["gcc", "-O1", "-pg", "-mfentry", "-mnop-mcount", "-fno-pie", "-no-pie", "-fcf-protection=full"], 3),
 }
 
 
-def gen_program(rng, variant):
+LIBNAMES = ["lib_one", "lib_two", "lib_alpha", "lib_beta", "lib_work", "lib_tiny", "lib_zeta"]
+LIB_DUMP = r"""
+extern char __ehdr_start __attribute__((visibility("hidden")));
+extern unsigned long __start___patchable_function_entries[] __attribute__((weak, visibility("hidden")));
+extern unsigned long __stop___patchable_function_entries[] __attribute__((weak, visibility("hidden")));
+NI void lib_dump(void)
+{
+	unsigned long lo = ~0UL, hi = 0, a; int i; char line[512]; FILE *f;
+	char *base = &__ehdr_start;
+	for (i = 0; ltable[i]; i++) { a = (unsigned long)ltable[i]; if (a < lo) lo = a; if (a > hi) hi = a; }
+	a = (unsigned long)lib_dump; if (a < lo) lo = a; if (a > hi) hi = a;
+	hi += 48;
+	printf("LT %lu ", lo - (unsigned long)base);
+	for (a = lo; a < hi; a++) printf("%02x", *(unsigned char *)a);
+	printf("\n");
+	if (__start___patchable_function_entries) {
+		unsigned long *p;
+		printf("LPFE");
+		for (p = __start___patchable_function_entries; p < __stop___patchable_function_entries; p++)
+			printf(" %lu", *p - (unsigned long)base);
+		printf("\n");
+	}
+	f = fopen("/proc/self/maps", "r");
+	while (f && fgets(line, sizeof line, f)) {
+		unsigned long s, e; char p[8];
+		if (sscanf(line, "%lx-%lx %7s", &s, &e, p) == 3)
+			printf("LM %s %ld %ld\n", p, (long)(s - (unsigned long)base), (long)(e - (unsigned long)base));
+	}
+	if (f) fclose(f);
+}
+"""
+
+
+def gen_library(rng):
+    names = rng.sample(LIBNAMES, rng.choice([2, 3, 4]))
+    src = ["#include <stdio.h>", "#include <string.h>", "#define NI __attribute__((noinline))", "volatile int lsink;"]
+    funcs = []
+    for i, n in enumerate(names):
+        kind = rng.choice(["small", "big", "big"])
+        attr = "__attribute__((patchable_function_entry(0)))" if rng.random() < 0.2 else ""
+        if kind == "small":
+            src.append("%s NI int %s(int x) { return x * %d + %d; }" % (attr, n, i + 5, i))
+        else:
+            src.append("%s NI int %s(int x) { int s = %d, i; for (i = 0; i < x + 2; i++) { s = s * 7 + (i ^ x); lsink = s; } "
+                       "return s & 0xfff; }" % (attr, n, i))
+        funcs.append({"name": n, "kind": kind, "nopatch": bool(attr)})
+    src.append("typedef void (*fp_t)(void);")
+    src.append("void lib_dump(void);")
+    src.append("static fp_t ltable[] = { %s, (fp_t)0 };" % ", ".join("(fp_t)%s" % f["name"] for f in funcs))
+    src.append(LIB_DUMP)
+    # "prog_plugin.so": the executable's name is a prefix of the library's (default module must not apply to it)
+    fname = rng.choice(["libc14e2e.so", "libc14e2e.so", "prog_plugin.so"])
+    return {"funcs": funcs, "src": "\n".join(src) + "\n", "file": fname,
+            "soname": rng.choice([None, None, "libc14so.so.3"]) if fname.startswith("lib") else None}
+
+
+def gen_program(rng, variant, lib=None, libmode=None):
     names = rng.sample(NAMES, rng.choice([4, 5, 6, 7]))
     nopatch = "__attribute__((no_instrument_function))" if variant.startswith("fentry") else \
         "__attribute__((patchable_function_entry(0)))"
@@ -37,24 +99,34 @@ def gen_program(rng, variant):
            "extern unsigned long __start___patchable_function_entries[] __attribute__((weak));",
            "extern unsigned long __stop___patchable_function_entries[] __attribute__((weak));",
            "volatile int sink;"]
+    cxx = variant.endswith("cxx")
     for i, n in enumerate(names):
         kind = rng.choice(["tiny", "small", "small", "big", "big"])
         attr = nopatch if rng.random() < 0.2 else ""
         static = "static " if rng.random() < 0.3 else ""
+        ns = cxx and rng.random() < 0.6
+        q = "ns::" + n if ns else n
+        op, cl = ("namespace ns { ", " }") if ns else ("", "")
         if kind == "tiny":
-            src.append("%s%s NI void %s(void) { __asm__ volatile(\"\"); }" % (static, attr, n))
-            call = "%s(); acc += %d;" % (n, i + 1)
+            src.append("%s%s%s NI void %s(void) { __asm__ volatile(\"\"); }%s" % (op, static, attr, n, cl))
+            call = "%s(); acc += %d;" % (q, i + 1)
+            cast = "(fp_t)(void (*)(void))%s" % q
         elif kind == "small":
-            src.append("%s%s NI int %s(int x) { return x * %d + %d; }" % (static, attr, n, i + 3, i))
-            call = "acc += %s(acc & 15);" % n
+            src.append("%s%s%s NI int %s(int x) { return x * %d + %d; }%s" % (op, static, attr, n, i + 3, i, cl))
+            call = "acc += %s(acc & 15);" % q
+            cast = "(fp_t)(int (*)(int))%s" % q
+            if cxx and rng.random() < 0.5:       # an overload: two symbols, one demangled name
+                src.append("%s%s NI int %s(double x) { return (int)(x * %d.5); }%s" % (op, attr, n, i + 1, cl))
+                call += " acc += %s(1.5 + (acc & 3));" % q
         else:
-            src.append("%s%s NI int %s(int x) { int s = %d, i; for (i = 0; i < x + 3; i++) { s = s * 31 + (i ^ x); "
-                       "sink = s; } return s & 0xffff; }" % (static, attr, n, i))
-            call = "acc += %s(acc & 7);" % n
-        funcs.append({"name": n, "kind": kind, "nopatch": bool(attr), "call": call})
+            src.append("%s%s%s NI int %s(int x) { int s = %d, i; for (i = 0; i < x + 3; i++) { s = s * 31 + (i ^ x); "
+                       "sink = s; } return s & 0xffff; }%s" % (op, static, attr, n, i, cl))
+            call = "acc += %s(acc & 7);" % q
+            cast = "(fp_t)(int (*)(int))%s" % q
+        funcs.append({"name": q, "kind": kind, "nopatch": bool(attr), "call": call, "cast": cast})
     src.append("typedef void (*fp_t)(void);")
     src.append("int main(void);")
-    src.append("static fp_t table[] = { %s, (fp_t)0 };" % ", ".join("(fp_t)%s" % f["name"] for f in funcs))
+    src.append("static fp_t table[] = { %s, (fp_t)0 };" % ", ".join(f["cast"] for f in funcs))
     src.append(r"""
 NI void dump_all(void)
 {
@@ -84,22 +156,91 @@ NI void dump_all(void)
 	if (f) fclose(f);
 }
 """)
-    src.append("int main(void) { int acc = 1; %s printf(\"R %%d\\n\", acc); fflush(stdout); dump_all(); return 0; }"
-               % " ".join(f["call"] for f in funcs))
-    return {"variant": variant, "funcs": funcs, "src": "\n".join(src) + "\n"}
+    pre, libcalls, post = "", "", ""
+    if lib is not None:
+        if libmode == "dlopen":
+            src.insert(0, "#include <dlfcn.h>")
+            pre = ("void *h = dlopen(\"./%s\", RTLD_NOW); void (*ldump)(void); " % lib["file"] +
+                   "if (!h) { printf(\"dlopen failed: %s\\n\", dlerror()); return 3; } ldump = (void (*)(void))dlsym(h, \"lib_dump\");")
+            for f in lib["funcs"]:
+                libcalls += " acc += ((int (*)(int))dlsym(h, \"%s\"))(acc & 7);" % f["name"]
+            post = "ldump();"
+        else:
+            for f in lib["funcs"]:
+                src.append("int %s(int);" % f["name"])
+                libcalls += " acc += %s(acc & 7);" % f["name"]
+            src.append("void lib_dump(void);")
+            post = "lib_dump();"
+    src.append("int main(void) { int acc = 1; %s %s %s printf(\"R %%d\\n\", acc); fflush(stdout); dump_all(); %s return 0; }"
+               % (pre, " ".join(f["call"] for f in funcs), libcalls, post))
+    return {"variant": variant, "funcs": funcs, "src": "\n".join(src) + "\n", "lib": lib, "libmode": libmode}
+
+
+def demangle_simple(n):
+    """what uftrace's demangler (simple mode: no parameter list) makes of the Itanium names our generated C++
+    programs contain: plain and nested identifiers, internal linkage (_ZL)"""
+    if not n.startswith("_Z"):
+        return n
+    p = n[2:]
+    if p.startswith("L"):
+        p = p[1:]
+    nested = p.startswith("N")
+    if nested:
+        p = p[1:]
+    parts = []
+    while p and (p[0].isdigit() or p[0] == "L"):
+        if p[0] == "L":
+            p = p[1:]
+            continue
+        m = re.match(r"\d+", p)
+        ln = int(m.group(0))
+        parts.append(p[m.end():m.end() + ln])
+        p = p[m.end() + ln:]
+        if not nested:
+            break
+    return "::".join(parts) if parts else n
 
 
 def build_program(ctx, prog, tag, fill=None):
     d = os.path.join(ctx.scratch, "e2e-" + tag)
     os.makedirs(d, exist_ok=True)
-    src = os.path.join(d, "prog.c")
+    src = os.path.join(d, "prog.cpp" if prog["variant"].endswith("cxx") else "prog.c")
     text = prog["src"]
     if fill:
         text += 'asm(".pushsection .text\\n .skip %d, 0xcc\\n .popsection");\n' % fill
     open(src, "w").write(text)
     exe = os.path.join(d, "prog")
     cmd, ty = VARIANTS[prog["variant"]]
-    rc, out, err = sh(cmd + ["-o", exe, src], timeout=120)
+    extra = []
+    if prog.get("lib") is not None:
+        lsrc = os.path.join(d, "lib.c")
+        open(lsrc, "w").write(prog["lib"]["src"])
+        lpath = os.path.join(d, prog["lib"].get("file", "libc14e2e.so"))
+        lcmd = ["gcc", "-O1", "-fpatchable-function-entry=5", "-fcf-protection=none", "-shared", "-fPIC", "-o", lpath, lsrc]
+        if prog["lib"]["soname"]:
+            lcmd.append("-Wl,-soname," + prog["lib"]["soname"])
+        rc, out, err = sh(lcmd, timeout=120)
+        if rc != 0:
+            raise RuntimeError("e2e library does not compile: %s" % err[-1500:])
+        if prog["lib"]["soname"]:
+            os.symlink(os.path.basename(lpath), os.path.join(d, prog["lib"]["soname"]))
+        extra = ["-ldl"] if prog["libmode"] == "dlopen" else ["-L" + d, "-l:" + os.path.basename(lpath),
+                                                              "-Wl,-rpath,$ORIGIN"]
+        prog["libpath"] = lpath
+        rc, out, err = sh(["nm", "-S", "--defined-only", lpath], check=True)
+        ls = []
+        for l in out.splitlines():
+            k = l.split()
+            if len(k) == 4 and k[2] in "tTwW":
+                ls.append((int(k[0], 16), int(k[1], 16), {"t": 116, "T": 84, "w": 119, "W": 119}[k[2]], k[3]))
+        prog["libsyms"] = sorted(ls)
+        rc, out, err = sh(["readelf", "-lW", lpath], check=True)
+        for l in out.splitlines():
+            k = l.split()
+            if k and k[0] == "LOAD" and "E" in "".join(k[6:-1]):
+                prog["lib_text_addr"], prog["lib_text_size"] = int(k[2], 16), int(k[5], 16)
+                break
+    rc, out, err = sh(cmd + ["-o", exe, src] + extra, timeout=120)
     if rc != 0:
         raise RuntimeError("e2e program does not compile (%s): %s" % (prog["variant"], err[-1500:]))
     rc, out, err = sh(["readelf", "-SW", exe], check=True)
@@ -113,7 +254,8 @@ def build_program(ctx, prog, tag, fill=None):
     for l in out.splitlines():
         k = l.split()
         if len(k) == 4 and k[2] in "tTwW":
-            syms.append((int(k[0], 16), int(k[1], 16), {"t": 116, "T": 84, "w": 119, "W": 119}[k[2]], k[3]))
+            syms.append((int(k[0], 16), int(k[1], 16), {"t": 116, "T": 84, "w": 119, "W": 119}[k[2]],
+                         demangle_simple(k[3])))
     rc, out, err = sh(["readelf", "-lW", exe], check=True)
     base = None
     text = None
@@ -133,7 +275,7 @@ def build_program(ctx, prog, tag, fill=None):
 
 
 def parse_run(out):
-    r = {"R": None, "T": None, "PFE": [], "maps": [], "Z": None}
+    r = {"R": None, "T": None, "PFE": [], "maps": [], "Z": None, "LT": None, "LPFE": [], "Lmaps": []}
     for l in out.splitlines():
         k = l.split()
         if not k:
@@ -144,6 +286,12 @@ def parse_run(out):
             r["T"] = (int(k[1]), bytes.fromhex(k[2]))
         elif k[0] == "Z" and len(k) == 2:
             r["Z"] = k[1]
+        elif k[0] == "LT" and len(k) == 3:
+            r["LT"] = (int(k[1]), bytes.fromhex(k[2]))
+        elif k[0] == "LPFE":
+            r["LPFE"] = [int(x) for x in k[1:]]
+        elif k[0] == "LM" and len(k) == 4:
+            r["Lmaps"].append((k[1], int(k[2]), int(k[3])))
         elif k[0] == "PFE":
             r["PFE"] = [int(x) for x in k[1:]]
         elif k[0] == "M" and len(k) == 4:
@@ -194,12 +342,13 @@ def c_ecase(c):
     r, t = base.c_tables(regok, tbl)
     o = c["obs"]
     return ("{| e_ptype := %s; e_funcs := %s; e_defmod := %s; e_regok := %s; e_tbl := %s; e_sect := %s; e_chk := %s; e_zarg := %s;\n"
-            "   e_lib := %s; e_text_addr := %s; e_text_size := %s; e_next_mapped := %s; e_wbase := %d; e_before := %s;\n"
+            "   e_lib := %s; e_so := %s; e_kind := %s; e_text_addr := %s; e_text_size := %s; e_next_mapped := %s; e_wbase := %d; e_before := %s;\n"
             "   e_syms := [%s]; e_targets := [%s];\n"
             "   o_died := %s; o_after := %s; o_traced := [%s]; o_same_output := %s; o_rc_same := %s; o_wx := %d; "
             "o_tramp_perm := %s; o_env := %s |}" % (
                 base.PT[c["ptype"]], base.cb(c["funcs"]), base.cb(c["defmod"]), r, t, "SectPatchable" if c["ty"] == 5 else "SectNone", base.cz(c["chk"]), base.cz(c["min"]),
-                base.cb(c["lib"]), base.cz(c["text_addr"]), base.cz(c["text_size"]), base.cbool(c["next_mapped"]),
+                base.cb(c["lib"]), base.copt_bytes(base.so_bytes(c.get("so"))), c.get("mkind", "MMain"),
+                base.cz(c["text_addr"]), base.cz(c["text_size"]), base.cbool(c["next_mapped"]),
                 c["wbase"], base.cb(c["before"]), ";".join(base.c_sym(s) for s in c["syms"]),
                 ";".join("%d" % a for a in c["targets"]),
                 base.cbool(o["died"]), base.cb(o["after"]), ";".join(base.cb(n) for n in o["traced"]),
@@ -242,35 +391,50 @@ def find_chk(h, prog):
     return prog["chk"]
 
 
-def make_case(ctx, h, prog, opts, ptype, minsz, res):
+def make_case(ctx, h, prog, opts, ptype, minsz, res, module="exe"):
     nat = prog["native"]
-    wbase, before = nat["T"]
-    tend = prog["text_addr"] + prog["text_size"]
+    tr = res["run"]
+    islib = module == "lib"
+    if islib:
+        wbase, before = nat["LT"]
+        text_addr, text_size = prog["lib_text_addr"], prog["lib_text_size"]
+        nmaps, tmaps, syms, pfe = nat["Lmaps"], tr["Lmaps"], prog["libsyms"], nat["LPFE"]
+        path, ty, chk = prog["libpath"], 5, 0
+        so = prog["lib"]["soname"]
+        kind = "MDlopen" if prog["libmode"] == "dlopen" else "MLoadLib"
+        tT = tr["LT"]
+    else:
+        wbase, before = nat["T"]
+        text_addr, text_size = prog["text_addr"], prog["text_size"]
+        nmaps, tmaps, syms, pfe = nat["maps"], tr["maps"], prog["syms"], nat["PFE"]
+        path, ty, chk = prog["exe"], prog["ty"], find_chk(h, prog)
+        so, kind, tT = None, "MMain", tr["T"]
+    tend = text_addr + text_size
     nextpg = (tend + 4095) // 4096 * 4096
     c = {"kind": "e2e", "ptype": ptype, "funcs": base.render(opts), "defmod": os.path.basename(prog["exe"]),
-         "lib": prog["exe"], "ty": prog["ty"], "chk": find_chk(h, prog), "min": zvalue(minsz), "zarg": minsz, "text_addr": prog["text_addr"],
-         "text_size": prog["text_size"], "next_mapped": perm_at(nat["maps"], nextpg) != "u",
+         "lib": path, "so": so, "mkind": kind, "module": module, "ty": ty, "chk": chk, "min": zvalue(minsz), "zarg": minsz,
+         "text_addr": text_addr, "text_size": text_size, "next_mapped": perm_at(nmaps, nextpg) != "u",
          "wbase": wbase, "before": before,
-         "syms": [s for s in prog["syms"] if wbase <= s[0] and s[0] + 9 <= wbase + len(before)],
-         "targets": sorted(nat["PFE"]) if prog["ty"] == 5 else [],
-         "variant": prog["variant"], "opts": [list(o) for o in opts]}
-    # uftrace reads the section in file order; the tracee printed it in that order
-    if prog["ty"] == 5:
-        c["targets"] = list(nat["PFE"])
-    tr = res["run"]
-    died = tr["T"] is None
+         "syms": [s for s in syms if wbase <= s[0] and s[0] + 9 <= wbase + len(before)],
+         # uftrace reads the section in file order; the tracee printed it in that order
+         "targets": list(pfe) if ty == 5 else [],
+         "variant": prog["variant"] + ("+" + prog["libmode"] + ":" + module if prog.get("lib") else ""),
+         "opts": [list(o) for o in opts]}
+    died = tT is None or tr["T"] is None
     tramp = (tend + 4095) // 4096 * 4096 - 16
     if tramp < tend:
         tramp += 16
-    c["obs"] = {"died": died, "after": b"" if died else tr["T"][1], "traced": res["traced"],
-                "same_output": (not died) and tr["R"] == nat["R"] and tr["T"][0] == wbase,
+    libnames = set(f["name"] for f in prog["lib"]["funcs"]) | {"lib_dump"} if prog.get("lib") else set()
+    traced = [n for n in res["traced"] if (n in libnames) == islib]
+    c["obs"] = {"died": died, "after": b"" if died else tT[1], "traced": traced,
+                "same_output": (not died) and tr["R"] == nat["R"] and tT[0] == wbase,
                 "rc_same": res["rc"] == prog["native_rc"],
                 "wx": 0 if died else sum(1 for p, s, e in tr["maps"] if "w" in p[:3] and "x" in p[:3]),
-                "tramp_perm": "u" if died else perm_at(tr["maps"], tramp),
+                "tramp_perm": "u" if died else perm_at(tmaps, tramp),
                 "env": env_value(tr["Z"]),
                 "rc": res["rc"], "args": res["args"], "stderr_tail": res["stderr_tail"]}
     names = [s[3] for s in c["syms"]]
-    c["queries"] = [(c["lib"], None, n) for n in dict.fromkeys(names)]
+    c["queries"] = [(c["lib"], so, n) for n in dict.fromkeys(names)]
     return c
 
 
@@ -297,6 +461,13 @@ def case_json(c):
 
 def gen_optsets(rng, prog, n):
     present = [f["name"] for f in prog["funcs"]] + ["main", "dump_all"]
+    mods, pmod = ["prog", "pr", "other", ""], 0.15
+    if prog.get("lib"):
+        present += [f["name"] for f in prog["lib"]["funcs"]] * 2 + ["lib_dump"]
+        if prog["lib"].get("file", "").startswith("prog_"):
+            mods, pmod = ["prog_plugin", "prog_pl", "prog", "prog", "other", ""], 0.4
+        else:
+            mods, pmod = ["libc14e2e", "libc14e2e", "libc14", "libc14so", "lib", "prog", "other", ""], 0.55
     sets = []
     for i in range(n):
         ptype = rng.choice([2, 2, 3])
@@ -307,11 +478,12 @@ def gen_optsets(rng, prog, n):
             if r < 0.45:
                 pat = rng.choice(present)
             elif ptype == 2:
-                pat = rng.choice([".", "^al", "a$", "^(alpha|beta)$", "e", "^[a-d]", "_", "t.*a", "^main$|^dump"])
+                pat = rng.choice([".", "^al", "a$", "^(alpha|beta)$", "e", "^[a-d]", "_", "t.*a", "^main$|^dump", "^ns::",
+                                  "::", "ns::(alpha|beta|work)"])
             else:
-                pat = rng.choice(["*", "al*", "*a", "?e*", "[a-d]*", "*_*", "main", "dump_*"])
-            if rng.random() < 0.15:
-                pat += "@" + rng.choice(["prog", "pr", "other", ""])
+                pat = rng.choice(["*", "al*", "*a", "?e*", "[a-d]*", "*_*", "main", "dump_*", "ns::*", "*::*", "ns::?e*"])
+            if rng.random() < pmod:
+                pat += "@" + rng.choice(mods)
             opts.append((rng.choice("PPU"), pat))
         if not any(kk == "P" for kk, _ in opts) or rng.random() < 0.4:
             opts.insert(0, ("P", "." if ptype == 2 else "*"))
@@ -354,20 +526,47 @@ def run(ctx, objdir, h):
     rng = ctx.rng
     cases = []
     variants = list(VARIANTS)
-    nsets = ctx.n(3, 12)
-    rounds = ctx.n(1, 4)
+    rounds = ctx.n(1, 3)
     for rd in range(rounds):
         for v in variants:
+            # the variants that are regression cases of repaired defects get fewer option sets, the first one `-P .`
+            nsets = ctx.n(1, 5) if v in REGRESSION_VARIANTS else ctx.n(2, 10)
             prog = build_program(ctx, gen_program(rng, v), "%s-%d" % (v, rd))
             tend = prog["text_addr"] + prog["text_size"]
             if (tend + 4095) // 4096 * 4096 - 16 < tend:
                 ctx.log("e2e: generated %s program falls into the trampoline-page defect class; skipped" % v)
                 continue
-            for si, (opts, ptype, minsz) in enumerate(gen_optsets(rng, prog, nsets)):
+            optsets = gen_optsets(rng, prog, nsets)
+            if v in REGRESSION_VARIANTS:
+                o0, pt0, z0 = optsets[0]
+                optsets[0] = ([("P", "." if pt0 == 2 else "*")] + [o for o in o0 if o[0] == "U"][:1], pt0, z0)
+            for si, (opts, ptype, minsz) in enumerate(optsets):
                 res = run_case(ctx, objdir, prog, opts, ptype, minsz, "%d" % si)
                 c = make_case(ctx, h, prog, opts, ptype, minsz, res)
                 c["source"] = prog["src"]
                 cases.append(c)
+    # programs with a shared library built with patchable entries: linked at start-up (mcount_dynamic_update with
+    # needs_modules) and dlopen()ed (mcount_dynamic_dlopen / match_pattern_module); two module cases per run
+    for libmode in ("ld", "dlopen"):
+        for rd in range(ctx.n(1, 3)):
+            lprog = build_program(ctx, gen_program(rng, "pfe", lib=gen_library(rng), libmode=libmode),
+                                  "lib-%s-%d" % (libmode, rd))
+            bad = False
+            for ta, ts in ((lprog["text_addr"], lprog["text_size"]), (lprog["lib_text_addr"], lprog["lib_text_size"])):
+                tend = ta + ts
+                bad = bad or (tend + 4095) // 4096 * 4096 - 16 < tend
+            if bad:
+                continue
+            for si, (opts, ptype, minsz) in enumerate(gen_optsets(rng, lprog, ctx.n(3, 10))):
+                res = run_case(ctx, objdir, lprog, opts, ptype, minsz, "%d" % si)
+                for module in ("exe", "lib"):
+                    c = make_case(ctx, h, lprog, opts, ptype, minsz, res, module=module)
+                    c["source"] = lprog["src"]
+                    c["libsource"] = lprog["lib"]["src"]
+                    c["libsoname"] = lprog["lib"]["soname"]
+                    c["libmode"] = libmode
+                    c["libfile"] = lprog["lib"]["file"]
+                    cases.append(c)
     # -Z boundary sweep on one patchable program (regression cases of "fix: size filter: do not wrap around")
     zprog = build_program(ctx, gen_program(rng, "pfe"), "zsweep")
     tend = zprog["text_addr"] + zprog["text_size"]
@@ -379,6 +578,20 @@ def run(ctx, objdir, h):
             c = make_case(ctx, h, zprog, [("P", ".")], 2, z, res)
             c["source"] = zprog["src"]
             cases.append(c)
+    # listed, unrepaired defect: a STRIPPED binary built with -fpatchable-function-entry=N,M (M > 0) - no symbol tells
+    # where the function begins, the call is written over the entry point and the program dies
+    try:
+        ps = build_program(ctx, gen_program(rng, "pfe-5,2"), "stripwit")
+        sh(["strip", ps["exe"]], check=True)
+        rs = run_case(ctx, objdir, ps, [("P", ".")], 2, None, "s")
+        died = rs["run"]["T"] is None
+        ctx.case(key=("e2e", "witness", STRIP_KEY), tags=["e2e:witness-stripped-pre-entry"], validated=True)
+        ctx.extra.setdefault("defect_witness_still_fails", {})[STRIP_KEY] = bool(died)
+        ctx.known_finding(STRIP_KEY, "uftrace record -P . kills a stripped program built with "
+                          "-fpatchable-function-entry=5,2 (%s)" % rs["stderr_tail"].strip()[-80:], died,
+                          {"mode": "e2e-strip", "source": ps["src"], "args": rs["args"], "stderr": rs["stderr_tail"]})
+    except RuntimeError as e:
+        ctx.log("e2e stripped witness could not be built: %s" % e)
     # dedicated witness of the trampoline-page defect: pad .text until the segment ends 7 bytes before a page end
     wit = None
     try:
@@ -408,7 +621,10 @@ def run(ctx, objdir, h):
         o = c["obs"]
         ctx.case(key=("e2e", c["variant"], c["funcs"], c["ptype"], c["min"], c["before"]),
                  nontrivial=(not o["died"]) and o["after"] != c["before"],
-                 tags=["e2e:" + c["variant"], "e2e:ptype=%d" % c["ptype"],
+                 tags=["e2e:" + c["variant"], "e2e:ptype=%d" % c["ptype"]]
+                 + (["e2e:lib-soname"] if c.get("so") else [])
+                 + (["e2e:lib-changed" if o["after"] != c["before"] else "e2e:lib-unchanged"] if c.get("module") == "lib" else [])
+                 + [
                        "e2e:noZ" if c["zarg"] is None else "e2e:Z" + zclass(c["min"]),
                        "e2e:died" if o["died"] else "e2e:ran"] + (["e2e:witness-trampoline-page"] if i == wit else []),
                  sample={"args": o["args"][4:], "variant": c["variant"], "traced": o["traced"]}
@@ -422,11 +638,22 @@ def run(ctx, objdir, h):
 
 def replay(ctx, objdir, h, obj):
     c0 = obj["case"]
-    prog = {"variant": c0["variant"], "funcs": [], "src": obj["source"]}
+    if obj.get("mode") == "e2e-strip":
+        ctx.log("replay of the stripped pre-entry witness: run ./check C14 (the witness is rebuilt on every run)")
+        return
+    variant = c0["variant"].split("+")[0]
+    prog = {"variant": variant, "funcs": [], "src": obj["source"]}
+    module = c0.get("module", "exe")
+    if c0.get("libsource") or obj.get("libsource"):
+        lsrc = c0.get("libsource") or obj.get("libsource")
+        names = sorted(set(re.findall(r"\b(lib_[a-z0-9]+)\(int x\)", lsrc)))
+        prog["lib"] = {"src": lsrc, "soname": c0.get("libsoname"), "funcs": [{"name": n} for n in names],
+                       "file": os.path.basename(c0["lib"]) if module == "lib" else c0.get("libfile", "libc14e2e.so")}
+        prog["libmode"] = c0.get("libmode", "ld")
     build_program(ctx, prog, "replay")
     opts = [tuple(o) for o in c0["opts"]]
     res = run_case(ctx, objdir, prog, opts, c0["ptype"], c0.get("zarg"), "r")
-    c = make_case(ctx, h, prog, opts, c0["ptype"], c0.get("zarg"), res)
+    c = make_case(ctx, h, prog, opts, c0["ptype"], c0.get("zarg"), res, module=module)
     c["source"] = prog["src"]
     out = base.Out(h.run(base.pat_lines(c)))
     base.read_pat(out, c)
